@@ -176,12 +176,15 @@ pub fn c10(tier: &str, seed: u64, meta: &str) -> Report {
                         } else { feed(w, &mut s, &[SEv::Finish], rep, "C10"); }
                     }
                     // re-configuring the idle context (an option flip, same method) does not cost the unsaved choice either
-                    feed(w, &mut s, &[SEv::Update(bits ^ 8, UacEdit::Keep)], rep, "C10");
+                    // (the flip is relative to the options in force now - earlier updates of this case changed them; the smart-quote
+                    // bit does not decide which candidates exist)
+                    let now = pbits(&s.opts);
+                    feed(w, &mut s, &[SEv::Update(now ^ 8, UacEdit::Keep)], rep, "C10");
                     let st5 = feed(w, &mut s, &pr.key_events("bhasha", 0), rep, "C10");
                     if let Some((_, l5, s5)) = last_full(&st5) {
                         if l5.get(s5).map(|x| crate::props::uncurl(x)) != Some(crate::props::uncurl(&chosen)) { rep.fail(describe("update_engine (an option flip) made the context forget a learned choice that could not be saved", json!({"word": "bhasha", "chosen": chosen, "candidates": l5, "preselected": s5, "session": s.describe()}))); }
                     }
-                    feed(w, &mut s, &[SEv::Finish, SEv::Update(bits, UacEdit::Keep)], rep, "C10");
+                    feed(w, &mut s, &[SEv::Finish, SEv::Update(now, UacEdit::Keep)], rep, "C10");
                 }
             }
             // the directory appears later (the front-end or the user makes it): the next learning commit is saved, and
